@@ -19,15 +19,15 @@ from ..model import cap, tls
 PROP = "C18"
 LEVEL = "exploration"
 
-CORPUS = ["quic_default", "quic_zero_ccid", "quic_prefix_cids", "quic_ncid", "quic_two", "tls12", "tls13_v6", "mixed"]
+CORPUS = ["quic_default", "quic_zero_ccid", "quic_prefix_cids", "quic_ncid", "quic_two", "tls12", "tls12_b", "tls13_v6", "tls13_b", "mixed"]
 
 
 def describe(tier):
     S = 128 if tier == "quick" else 2048
     return {
-        "rule": f"H: 8 scenarios x (every iteration order of the scenario's connection-ID set realised by a hash seed in 0..{S - 1}, "
+        "rule": f"H: 10 scenarios x (every iteration order of the scenario's connection-ID set realised by a hash seed in 0..{S - 1}, "
                 "one witness seed each) x cwd in {/, temp, /repo} x 5 environments, through `python -m tlexport.main` in fresh "
-                "processes; R: all 64 ordered pairs (A,B) of corpus entries run back to back in one interpreter without state "
+                "processes; R: all 100 ordered pairs (A,B) of corpus entries run back to back in one interpreter without state "
                 "restoration. non-trivial: a run whose output holds data and equals the reference hash; distinct = distinct "
                 "(scenario, seed/cwd/env) or pair",
         "exhaustive": True,
@@ -58,6 +58,11 @@ def scenario(name, seed):
         flows.append(scen.quic_flow({"suite": 0x1303, "ccid_len": 1, "scid_len": 1}, seed, 1))
     elif name == "tls12":
         flows.append(scen.tls_flow({"version": tls.TLS12, "suite": 0xC02F}, seed, 0))
+    elif name == "tls12_b":
+        # same shape and key-log length as tls12, different connection and secrets
+        flows.append(scen.tls_flow({"version": tls.TLS12, "suite": 0x003C, "etm": True}, seed, 0, key=("b",)))
+    elif name == "tls13_b":
+        flows.append(scen.tls_flow({"version": tls.TLS13, "suite": 0x1301}, seed, 0, key=("b",)))
     elif name == "tls13_v6":
         flows.append(scen.tls_flow({"version": tls.TLS13, "suite": 0x1303}, seed, 0, v6=True))
     else:
@@ -127,7 +132,7 @@ def run_case(case):
         for order, hs in orders.items():
             runs.append(({"hashseed": hs, "order": order[:80]}, dict(hashseed=str(hs))))
         for cwd in ("/", tmpd, harness.SRC):
-            runs.append(({"cwd": "tmp" if cwd == tmpd else cwd}, dict(cwd=cwd, hashseed="random")))
+            runs.append(({"cwd": "tmp" if cwd == tmpd else cwd}, dict(cwd=cwd, hashseed=str(101 + len(runs)))))
         for e in ENVS:
             runs.append(({"env": {k: str(v) for k, v in e.items()}}, dict(env=e, hashseed="7")))
         try:
